@@ -11,7 +11,21 @@ use vh::conv::*;
 
 fn tree(e: &UntypedExpr) -> J {
     match e {
+        UntypedExpr::Var { name, .. } if name.contains(aiken_lang::ast::CAPTURE_VARIABLE) => json!({"k": "hole"}),
+        UntypedExpr::Var { name, .. } if name.chars().next().map(|c| c.is_uppercase()).unwrap_or(false) => {
+            json!({"k": "call", "f": name, "args": []})
+        }
         UntypedExpr::Var { name, .. } => json!({"k": "v", "x": name}),
+        UntypedExpr::Call { fun, arguments, .. } => match fun.as_ref() {
+            UntypedExpr::Var { name, .. } => json!({
+                "k": "call",
+                "f": name,
+                "args": arguments.iter().map(|a| json!({"l": a.label.clone().unwrap_or_default(), "v": tree(&a.value)})).collect::<Vec<_>>(),
+            }),
+            other => json!({"k": "other", "dbg": format!("{other:?}")}),
+        },
+        // a capture is its call with the hole in place
+        UntypedExpr::Fn { fn_style: aiken_lang::expr::FnStyle::Capture, body, .. } => tree(body),
         UntypedExpr::UnOp { op, value, .. } => {
             let o = match op {
                 aiken_lang::ast::UnOp::Not => "!",
